@@ -43,6 +43,10 @@ class MacroGen:
             args = []
             for (pn, typ) in m["params"]:
                 a = self.fill(typ, params, labels)
+                while a == "$":
+                    # `$` as a macro argument is evaluated at the calling instruction when it feeds a rule-body local
+                    # but at the inner instruction when substituted as text: not expressible in the inlined twin
+                    a = self.fill(typ, params, labels)
                 if a in labels:
                     self.local_label_as_macro_arg = True
                 args.append(a)
@@ -114,7 +118,33 @@ class MacroGen:
         pat = name + (" " + ", ".join("{%s%s}" % (p, ": %s%d" % t if t else "") for p, t in params) if params else "")
         body = " @ ".join("asm {\n" + "\n".join("        " + (it[1] + ":" if it[0] == "label" else it[1]) for it in blk) + "\n    }"
                           for blk in blocks)
-        m = {"name": name, "params": params, "blocks": blocks, "text": "    %s => %s" % (pat, body)}
+        locals_ = []
+        if params and nblocks == 1 and rng.random() < 0.3:
+            # rule-body locals computed from the parameters, used inside the block through {name} substitution
+            lnames = rng.choice([["t"], ["t", "u"], ["t", "__t"], ["v0", "__v0", "w"]])
+            for ln in lnames:
+                src_p = rng.choice(params)[0]
+                add = rng.randint(1, 9)
+                locals_.append((ln, src_p, add))
+            # replace some {param} holes by {local}
+            new_blk = []
+            for it in blocks[0]:
+                # {local} only in operands of base instructions: a local handed on to a nested macro is passed by
+                # (hygienised) name, which is neither visible two levels down nor safe from capture by an equally
+                # named local of the callee (observed, DESIGN section 7; not generated)
+                if it[0] == "instr" and not it[1].startswith("mac") and rng.random() < 0.6:
+                    t = it[1]
+                    for (ln, sp, add) in locals_:
+                        # names starting with `__` are reserved by the substitution hygiene and cannot be referenced
+                        if not ln.startswith("__") and "{" + sp + "}" in t and rng.random() < 0.7:
+                            t = t.replace("{" + sp + "}", "{" + ln + "}", 1)
+                    new_blk.append(("instr", t))
+                else:
+                    new_blk.append(it)
+            blocks[0] = new_blk
+            asm_text = "asm {\n" + "\n".join("        " + (it[1] + ":" if it[0] == "label" else it[1]) for it in blocks[0]) + "\n    }"
+            body = "{\n" + "".join("        %s = %s + %d\n" % (ln, sp, add) for (ln, sp, add) in locals_) + "        " + asm_text + "\n    }"
+        m = {"name": name, "params": params, "blocks": blocks, "text": "    %s => %s" % (pat, body), "locals": locals_}
         self.macros.append(m)
         return m
 
@@ -166,6 +196,8 @@ class MacroGen:
         if len(args) != len(m["params"]):
             return [text]
         mapping = {p: a for (p, t), a in zip(m["params"], args)}
+        for (ln, sp, add) in m.get("locals", []):
+            mapping[ln] = "((%s) + %d)" % (mapping[sp], add)
         lines = []
         for bi, blk in enumerate(m["blocks"]):
             ren = {it[1]: "%s_%s_%d_%s" % (m["name"], uid, bi, it[1]) for it in blk if it[0] == "label"}
@@ -219,6 +251,22 @@ def gen_pair(rng):
     for i in range(rng.randint(0, 3)):
         g.gen_fn(i)
     head = G.render_isa(g.isa)
+    fn_rules, fn_rules_twin = [], []
+    for k, f in enumerate(g.fns):
+        if rng.random() < 0.6:
+            ps = ["fa%d" % j for j in range(len(f["params"]))]
+            call = ("call", f["name"], [("var", 0, [p]) for p in ps])
+            w = rng.choice([8, 16])
+            op = rng.getrandbits(8)
+            pat = "fr%d" % k + (" " + ", ".join("{%s}" % p for p in ps) if ps else "")
+            fn_rules.append("    %s => 0x%02x @ (%s)`%d" % (pat, op, M.show(call), w))
+            fn_rules_twin.append("    %s => 0x%02x @ (%s)`%d" % (pat, op, M.show(g.inline_fn_calls(call)), w))
+            g.fn_rule_names = getattr(g, "fn_rule_names", []) + [("fr%d" % k, len(ps))]
+    if fn_rules:
+        head_twin = head + "#ruledef\n{\n" + "\n".join(fn_rules_twin) + "\n}\n"
+        head = head + "#ruledef\n{\n" + "\n".join(fn_rules) + "\n}\n"
+    else:
+        head_twin = head
     macro_block = "#ruledef\n{\n" + "\n".join(m["text"] for m in g.macros) + "\n}\n"
     fn_text = "".join("#fn %s(%s) => %s\n" % (f["name"], ", ".join(f["params"]), M.show(f["body"])) for f in g.fns)
     body, twin = [], []
@@ -253,6 +301,13 @@ def gen_pair(rng):
             body.append(text)
             twin.extend(g.expand_macro(text, "c%d" % j))
             uses_macro += 1
+        elif r < 0.62 and getattr(g, "fn_rule_names", None):
+            nm, np_ = rng.choice(g.fn_rule_names)
+            args = [str(rng.randint(0, 60)) if rng.random() < 0.6 else rng.choice(list(consts) + labels) for _ in range(np_)]
+            t = nm + (" " + ", ".join(args) if args else "")
+            body.append(t)
+            twin.append(t)
+            uses_macro += 1
         elif r < 0.7:
             t = g.inner_instr([], labels)
             body.append(t)
@@ -271,7 +326,7 @@ def gen_pair(rng):
             twin.append("#d8 %d" % v)
     tail = "".join("%s = %d\n" % kv for kv in consts.items())
     src = head + macro_block + fn_text + "\n".join(body) + "\n" + tail
-    twin_src = head + fn_text + "\n".join(twin) + "\n" + tail
+    twin_src = head_twin + fn_text + "\n".join(twin) + "\n" + tail
     return src, twin_src, {"macros": len(g.macros), "fns": len(g.fns), "uses": uses_macro,
                            # any instruction of a later block may depend on the position ($ in the text, in a
                            # substituted argument or in the base rule's production, or a block-local label)
